@@ -340,6 +340,21 @@ def _full_batch_gradient(check: Check):
                  f'to the count-weighted sum (e.g. a regulariser gradient) is divided by the number of examples instead of entering once',
                  node=c)
   check.floor('R-WMEAN.pair-sum', 'full-batch gradient sites', n, 2)
+  # the per-client pair handed to that sum is the two accumulators as they are: a count that is clamped or defaulted (e.g. to >= 1)
+  # makes a client without real examples weigh something
+  from fjsa.rules import skeleton as sk
+  for t in entries.find_triples(repo, [repo.module('fedjax.algorithms.mime')]):
+    if t.final is None or t.step is None or 'grads' not in t.name:
+      continue
+    fff = FuncFlow.of(repo, t.final)
+    recf = sk.Record(fff, t.final.positional_params[1])
+    for _, rv in fff.returns():
+      for x in fff.expand(rv):
+        if isinstance(x, ast.Tuple) and len(x.elts) == 2:
+          fields = [recf.field_of(e) for e in x.elts]
+          check.ob('R-WMEAN.pair-final', t.final, txt(x)[:80], None not in fields,
+                   f'client_final returns the accumulated (gradient sum, example count) fields unmodified (fields: {fields}); a clamped count '
+                   'gives an all-padding client a non-zero weight in the full-batch gradient', node=x)
 
 
 def _wired(check: Check, repo, step_fi: FuncInfo):
